@@ -456,6 +456,13 @@ def check_register_unit(ctx, rng):
     rep = {"kind": "register-unit", "child": child, "table": table}
     merge = any(n in child and n not in table for n in table.values())
     ctx.case(rep, tags=["stream:register-unit", f"table:{kind}", "merge" if merge else "injective"])
+    run_register_unit(ctx, rep)
+
+
+def run_register_unit(ctx, rep):
+    L = impl.lk()
+    child, table = rep["child"], rep["table"]
+    merge = any(n in child and n not in table for n in table.values())
     try:
         m = L.Model(pin_dic={L.Pin("a"): 0, L.Pin("b"): 1}, param_dic=dict(child))
         st = L.Structure(model=m, param_mapping=dict(table))
@@ -531,6 +538,8 @@ def replay(ctx, data):
         run_add_param_sibling(ctx, data)
     elif data["kind"] == "solver-params-unit":
         return True, "unit stream is regenerated, not replayed"
+    elif data["kind"] == "register-unit":
+        run_register_unit(ctx, data)
     elif data["kind"] == "unit":
         check_rename_unit(ctx, [tuple(p) for p in data["table"]], data["dict"], data)
     else:
